@@ -120,7 +120,8 @@ STATICS = {
         False, True),
     "RainfallClimateNetwork.calculate_rainfall": (
         _static(RAIN, "calculate_rainfall"),
-        lambda r: ([_arr(r, (3, _T(r))), 0.5, 1.0], {}), False, True),
+        lambda r: ([_arr(r, (3, _T(r))), 0.5, r.choice((0.0, 1.0, 1e-7))],
+                   {}), False, True),
     "RainfallClimateNetwork.calculate_top_events": (
         _static(RAIN, "calculate_top_events"),
         lambda r: ([_arr(r, (3, _T(r)), positive=True), (0.5, 1.0)], {}),
